@@ -2,7 +2,7 @@
 from harness import c01
 from harness.common import label
 from harness.ledger import Ledger, same_term
-from harness.runlevel import drive, Observer, algo_class, build, params_of, partitions_of
+from harness.runlevel import plain, drive, Observer, algo_class, build, params_of, partitions_of
 from sx.engine import Sym
 
 PROPERTY = "C04"
@@ -56,8 +56,8 @@ def make_recording(base, ctx, log):
 
         def receive_reward(self, time, reward):
             super().receive_reward(time, reward)
-            self._got.append(reward)
-            self._led.after_reward(len(self._got), reward)
+            self._got.append(plain(reward))
+            self._led.after_reward(len(self._got), plain(reward))
 
     Rec.__name__ = base.__name__
     Rec.__qualname__ = base.__qualname__
